@@ -597,7 +597,8 @@ impl RefState {
             let total: u128 = reqs.iter().map(|t| t.outputs[0].value.0).fold(0, |a, b| a.saturating_add(b));
             let mut pool = self.pools[&k];
             let before = pool;
-            if total > pool.liqs || total == 0 {
+            let builtin = k == PoolKey::new(Denom::Mel, Denom::Sym) || k == PoolKey::new(Denom::Mel, Denom::Erg) || k == PoolKey::new(Denom::Erg, Denom::Sym);
+            if total > pool.liqs || total == 0 || (builtin && total == pool.liqs) {
                 // cannot be honoured: leave everything as declared (the statement has no rule for it)
                 rep.unsettleable_withdrawals.push(k);
                 continue;
